@@ -319,7 +319,8 @@ def run (ctx):
         guarded = ("%s in %s" % (key, d)) in facts
         if not guarded:
           # inside a try with a handler for KeyError / catch-all in this function
-          guarded = any(h.kind == 'handler' for h in g.handlers_for(cn)) and not g.raises_out(cn)
+          hs_ = [h for h in g.handlers_for(cn) if h.kind == 'handler']
+          guarded = bool(hs_) and (not g.raises_out(cn) or any(h.ast.type is not None and any(nm in norm(h.ast.type) for nm in ('KeyError', 'LookupError', 'Exception')) for h in hs_))
         ctx.ob('R-DOM', f, "lookup %s[%s] keyed by the request" % (d, key), guarded,
                "guarded by membership test / try" if guarded else
                "%s[%s] is indexed with a value taken from the request without a membership test: an unknown key raises "
